@@ -158,7 +158,13 @@ func ruleOffsetIdentity(c *eng.Ctx) {
 			c.Unresolved(k.builder + " / append in " + k.fn)
 			continue
 		}
+		// the segment handed to append: the argument of type *segment, wherever it stands in the parameter list
 		seg := ap[0].Common().Args[1]
+		for _, a := range ap[0].Common().Args[1:] {
+			if strings.HasSuffix(a.Type().String(), "commitlog.segment") {
+				seg = a
+			}
+		}
 		a := nm[0].Common().Args
 		okSeg := eng.Call(-1, cl+"commitLog.activeSegment")(seg)
 		okPos, okBase := false, true
@@ -453,6 +459,13 @@ func ruleUnitDiscipline(c *eng.Ctx) {
 	for _, s := range eng.Index(p).Sites(cl + "index.ReadEntryAtLogOffset") {
 		call := s.Instr.(ssa.CallInstruction)
 		report("slot argument of ReadEntryAtLogOffset in "+ir.FuncKey(s.Fn), c.Pos(s.Instr), call.Common().Args[2])
+	}
+	// sinks 1b: the byte position handed to ReadEntryAtFileOffset is a slot times the entry width — it must not be computed
+	// from a log offset either (a "dense segment" shortcut addresses the wrong entry once offsets were skipped)
+	for _, s := range eng.Index(p).Sites(cl + "index.ReadEntryAtFileOffset") {
+		call := s.Instr.(ssa.CallInstruction)
+		args := call.Common().Args
+		report("index position argument of ReadEntryAtFileOffset in "+ir.FuncKey(s.Fn), c.Pos(s.Instr), args[len(args)-1])
 	}
 	// sinks 2: stores to the scanners' slot fields
 	for _, owner := range []string{"indexScanner", "reverseIndexScanner"} {
